@@ -205,42 +205,52 @@ def r2(ctx):
         raise AnchorMissing('matches.push((i, j)) (found %d)' % len(pushes))
     loop = cfg.innermost_loop(b, pushes[0].bb)
     table = {'Delete': (1, 0), 'Insert': (0, 1), 'Match': (1, 1), 'NoMatch': (1, 1)}
-    arms = {}
-    for blk in loop.blocks:
-        for t, names in variant_facts_at(b, blk):
-            if len(names) == 1 and list(names)[0] in table:
-                arms.setdefault(list(names)[0], set()).add(blk)
-    sts = list(_stores(b, loop.blocks))
+    from rules.common import iteration_table
+    from analysis import poly
+    rows = iteration_table(b, loop, {'i': R['i'], 'j': R['j']})
+    if rows is None:
+        raise AnchorMissing('paths of the backtrace loop (too many)')
+    iv, jv = ('var', b.var_name(R['i']) or '', R['i']), ('var', b.var_name(R['j']) or '', R['j'])
+    byname = {}
+    for r in rows:
+        # the cell variant of the path: the intersection of all facts about the MatchOp read
+        cur = None
+        for t, n in r['variants']:
+            if set(n) <= set(table) | {'None'} and n:
+                cur = set(n) if cur is None else (cur & set(n))
+        if cur is not None and len(cur) == 1 and list(cur)[0] in table:
+            byname.setdefault(list(cur)[0], []).append(r)
+        elif cur is not None and len(cur) == 0:
+            continue   # infeasible combination of facts
     for name, (di, dj) in table.items():
-        blocks = arms.get(name)
-        if not blocks:
-            ctx.fail(b, 'arm-missing|' + name, 'backtrace has no arm for MatchOp::%s' % name)
+        rs = byname.get(name)
+        if not rs:
+            ctx.fail(b, 'arm-missing|' + name, 'backtrace has no path for MatchOp::%s' % name)
             continue
-        dec = {'i': 0, 'j': 0}
-        for s, t, v in sts:
-            if s.bb in blocks and t[0] == 'var' and _role(t[2]) in ('i', 'j'):
-                cv = core(v)
-                if cv[0] == 'bin' and cv[1] == 'Sub' and cv[2][0] == 'var' and cv[2][2] == t[2] and cv[3][0] == 'const':
-                    dec[_role(t[2])] += cv[3][2]
-                else:
-                    dec[_role(t[2])] = 99
-        ctx.require((dec['i'], dec['j']) == (di, dj), b, 'step|' + name, '%s moves (i, j) by (-%d, -%d)' % (name, di, dj),
-                    '%s moves (i, j) by (-%d, -%d), expected (-%d, -%d)' % (name, dec['i'], dec['j'], di, dj))
-        ps = [p for p in pushes if p.bb in blocks]
-        if name == 'Match':
-            ok = len(ps) == 1 and match(core(sym(b, ps[0].args[1])), ('agg', 'tuple', '', (_var('i'), _var('j'))))
-            decs = [s for s, t, v in sts if s.bb in blocks and t[0] == 'var' and _role(t[2]) in ('i', 'j')]
-            tup = [s for s in b.stmts() if s.bb in blocks and s.kind == 'assign' and s.rv.kind == 'agg' and s.rv.agg == 'tuple' and len(s.rv.ops) == 2]
-            ok = ok and len(tup) == 1 and all(cfg.dominates(b, s.bb, tup[0].bb) and (s.bb != tup[0].bb or s.idx < tup[0].idx) for s in decs)
-            ctx.require(ok, b, 'push|Match', 'Match pushes (i, j) after both were decremented (0-based word indices)',
-                        'Match pushes %s (or before the decrement)' % [show_in(b, sym(b, p.args[1])) for p in ps])
-        else:
-            ctx.require(not ps, b, 'push|' + name, '%s pushes nothing' % name, '%s pushes a pair' % name)
+        steps = {(r['delta']['i'], r['delta']['j']) for r in rs}
+        ctx.require(steps == {(-di, -dj)}, b, 'step|' + name, '%s moves (i, j) by (-%d, -%d)' % (name, di, dj),
+                    '%s moves (i, j) by %s, expected (-%d, -%d)' % (name, sorted(steps, key=str), di, dj))
+        okp, shown = True, []
+        for r in rs:
+            ps = [(t, a) for t, a in r['calls'] if (t.callee_res() or '').endswith('Vec::push')]
+            shown += [show_in(b, a[1])[:60] for t, a in ps]
+            if name != 'Match':
+                okp = okp and not ps
+                continue
+            if len(ps) != 1:
+                okp = False
+                continue
+            v = peel(ps[0][1][1])
+            okp = okp and v[0] == 'agg' and v[1] == 'tuple' and len(v[3]) == 2 and \
+                poly.poly(v[3][0]) == poly._add(poly.poly(iv), {(): 1}, -1) and poly.poly(v[3][1]) == poly._add(poly.poly(jv), {(): 1}, -1)
+        ctx.require(okp, b, 'push|' + name, 'Match pushes (i, j) after both were decremented (0-based word indices)' if name == 'Match' else '%s pushes nothing' % name,
+                    '%s pushes %s%s' % (name, sorted(set(shown)), ' (or before the decrement)' if name == 'Match' else ''))
     ok = False
     for (u, w) in loop.exits(b):
         at = [(core(t), pol) for t, pol, g in atoms_at(b, w)]
-        if any(pol is False and match(t, ('bin', 'Gt', _var('i'), Const(0))) for t, pol in at) and \
-                any(pol is False and match(t, ('bin', 'Gt', _var('j'), Const(0))) for t, pol in at):
+        zero = lambda vv: any((pol is False and match(t, ('bin', 'Gt', _var(vv), Const(0)))) or (pol is True and match(t, ('bin', 'Eq', _var(vv), Const(0)))) or
+                              (pol is False and match(t, ('bin', 'Ne', _var(vv), Const(0)))) for t, pol in at)
+        if zero('i') and zero('j'):
             ok = True
     ctx.require(ok, b, 'loop-condition', 'the backtrace runs while i > 0 || j > 0', None)
     inits = {}
